@@ -251,6 +251,8 @@ pub struct RunCtx {
     pub tracker: Arc<crate::values::Tracker>,
     /// number of top-level Call operations completed so far
     pub seq: AtomicU64,
+    /// user programs nested deeper than this make no further calls (knob `max_depth`)
+    pub max_depth: usize,
 }
 
 impl RunCtx {
@@ -457,7 +459,7 @@ pub fn run_prog(kind: ProgKind, x: u8, y: u8, port: Port) -> u64 {
     }
     let _guard = PopGuard;
 
-    let calls: &[(M, u8, u8)] = if depth > MAX_DEPTH { &[] } else { &prog.calls };
+    let calls: &[(M, u8, u8)] = if depth > run.max_depth { &[] } else { &prog.calls };
     for (i, (m, dx, dy)) in calls.iter().enumerate() {
         if fault_pos == Some(i) {
             std::panic::panic_any(UserFault::Prog { inv });
